@@ -6,7 +6,7 @@
 From Coq Require Import Reals.
 From Coquelicot Require Import Coquelicot.
 From MV Require Import Lib.Rigid Gen.GenCore Model.CorePinned Model.CoreNum Model.CoreModel Model.CoreSpec Model.CoreFrame
-  Proofs.CoreProofs Proofs.CoreIntegrals Proofs.CoreFrameProofs Proofs.CoreFloatWitness.
+  Proofs.CoreProofs Proofs.CoreIntegrals Proofs.CorePolyline Proofs.CoreFrameProofs Proofs.CoreFloatWitness.
 Open Scope R_scope.
 
 (* Dipole: for every moment and every observer off the dipole, dipole_Hfield is the point-dipole
@@ -38,26 +38,31 @@ Theorem C01_circle_on_axis_is_biot_savart : forall (cur d z : R) (i : nat), d <>
 Proof. exact circle_on_axis_spec. Qed.
 Print Assumptions C01_circle_on_axis_is_biot_savart.
 
-(* Polyline segment, PARTIAL.  Proved in full: (1) for p1 <> p2 and an observer off the supporting
-   line, every component of the Biot-Savart integral over the segment exists and equals the closed
-   form  I/(4 pi) ((p2-p1) x (o-p1))_i (F 1 - F 0),  F s = 2(2As+B)/((4AC-B^2) sqrt(As^2+Bs+C)),
-   A = |p2-p1|^2, B = -2 (o-p1).(p2-p1), C = |o-p1|^2;  (2) the three sign cases of
-   current_polyline_Hfield (mask2 / mask3 / mask4, as a function of the foot parameter t and the
-   distance d > 0 from the line, both in units of the segment length) always yield
-   deltaSin = (1+t)/sqrt((1+t)^2+d^2) - t/sqrt(t^2+d^2), i.e. the case split never picks a wrong sign.
-   NOT proved: the algebraic identification of the model's intermediate vector norms
-   (polyline_H_br NumR: norm_41 = |t|, norm_42 = |1+t|, norm_o4 = d, ...) with (t, d) and of
-   F 1 - F 0 with deltaSin/(d^2 |p2-p1|^3); it is checked numerically by the search only. *)
-Theorem C01_polyline_segment_is_biot_savart_partial :
-  (forall (cur : R) (o p1 p2 : RV3) (i : nat),
-     p1 <> p2 -> 0 < Rdot (segX o p1 p2) (segX o p1 p2) ->
-     is_RInt (bs_segment_integrand cur o p1 p2 i) 0 1
-       (cur / (4 * PI) * comp i (segX o p1 p2) *
-        (FF (segA o p1 p2) (segB o p1 p2) (segC o p1 p2) 1 - FF (segA o p1 p2) (segB o p1 p2) (segC o p1 p2) 0)))
-  /\ (forall t d : R, 0 < d ->
-     deltaSin_code t d = (1 + t) / sqrt ((1 + t) * (1 + t) + d * d) - t / sqrt (t * t + d * d)).
-Proof. exact (conj segment_biot_savart_closed deltaSin_code_spec). Qed.
-Print Assumptions C01_polyline_segment_is_biot_savart_partial.
+(* Polyline segment (current_polyline_Hfield + BHJM_current_polyline for one segment, as of /repo ed8562c), IN FULL:
+   for p1 <> p2 and every observer whose distance from the supporting line is at least 1e-15 segment
+   lengths (|(p2-p1) x (o-p1)| >= 1e-15 |p2-p1|^2: exactly the observers that pass the code's on-line
+   mask `norm_o4 < 1e-15`), every component of the returned H is the Biot-Savart line integral
+   I/(4 pi) Int_0^1 ((p2-p1) x (o - l(s)))_i / |o - l(s)|^3 ds,  l(s) = p1 + s (p2-p1)  (Coquelicot is_RInt:
+   the integral exists and has this value).  All three branches mask2/mask3/mask4 are covered. *)
+Theorem C01_polyline_segment_is_biot_savart : forall (cur : R) (o p1 p2 : RV3) (i : nat),
+  p1 <> p2 ->
+  1 / 1000000000000000 * segA o p1 p2 <= Rnorm (segX o p1 p2) ->
+  is_RInt (bs_segment_integrand cur o p1 p2 i) 0 1 (comp i (polyline_H NumR o p1 p2 cur)).
+Proof. exact polyline_segment_is_biot_savart. Qed.
+Print Assumptions C01_polyline_segment_is_biot_savart.
+
+Example C01_polyline_nonvacuous :
+  (0, 0, 0) <> (1, 0, 0) /\ 1 / 1000000000000000 * segA (0, 1, 0) (0, 0, 0) (1, 0, 0) <= Rnorm (segX (0, 1, 0) (0, 0, 0) (1, 0, 0)).
+Proof. exact polyline_nonvacuous. Qed.
+
+(* ... and ON the supporting line (e.g. on the extension of the segment) the on-line mask returns 0, which is the
+   integral (the cross product in the integrand vanishes identically).  Not covered by any theorem: observers
+   with 0 < distance < 1e-15 segment lengths from the line, where the code returns 0 by design. *)
+Theorem C01_polyline_on_line_is_biot_savart : forall (cur : R) (o p1 p2 : RV3) (i : nat),
+  p1 <> p2 -> segX o p1 p2 = (0, 0, 0) ->
+  is_RInt (bs_segment_integrand cur o p1 p2 i) 0 1 (comp i (polyline_H NumR o p1 p2 cur)).
+Proof. exact polyline_on_line_is_biot_savart. Qed.
+Print Assumptions C01_polyline_on_line_is_biot_savart.
 
 (* getBH_level1: in every rigid-motion algebra, the field returned at the global image
    (R ol + p) of a local point ol is the rotated local field R F(ol) *)
